@@ -29,7 +29,7 @@ RULE = (
     "synthetic readers; layer F: 12 corpus layouts (1-2 corpora x 1-2 files, 1..11 docs, with/without action-and-meta-data lines, ASCII and "
     "2/3/4-byte UTF-8) x clients 1..5 x worker splits of 4 layouts x bulk {1,2,3,5,1000} x batch {1x,2x,3x} x percentage {100,75,50,34,1} and "
     "conflict modes; layer E: 12 layouts x clients {1,2,3,5} x 4 worker splits x bulk {1,3,1000} end to end through the real worker stack "
-    "(AsyncIoAdapter .. BulkIndex runner .. client) against the simulated _bulk endpoint; layer O: files of 49999..120007 lines (offset tables) with multi-byte content x clients {2,3} x two bulk sizes. "
+    "(AsyncIoAdapter .. BulkIndex runner .. client) against the simulated _bulk endpoint; layer O: files of 49999..120007 lines (offset tables) with multi-byte content, one of them a new revision of a file whose offset table already existed, x clients {2,3} x two bulk sizes. "
     "non-trivial = more than one client or more than one bulk; distinct = the configuration"
 )
 ASSUMPTIONS = [
@@ -485,21 +485,35 @@ def file_cases(tier):
 # ------------------------------------------------------------------------------------------------ layer O (offset tables)
 
 
-def large_track(nlines, tk, meta):
+def large_track(nlines, tk, meta, revised=False):
+    """revised: the corpus file replaces an earlier revision with the same number of lines but other byte positions, for which an
+    offset table had already been built (the table is older than the new file and must be rebuilt)"""
     from esrally.track import track
     from esrally.utils import io as rio
 
-    d = os.path.join(scratch(), f"large-{nlines}-{tk}-{int(meta)}")
+    d = os.path.join(scratch(), f"large-{nlines}-{tk}-{int(meta)}-{int(revised)}")
     os.makedirs(d, exist_ok=True)
     path = os.path.join(d, "c0-f0.json")
-    lines = []
     n = nlines // (2 if meta else 1)
-    for k in range(n):
-        if meta:
-            lines.append('{"index":{"_id":"m-c0f0d%d"}}\n' % k)
-        lines.append(json.dumps({"id": f"c0f0d{k}", "t": TEXTS[tk][: 1 + k % 7]}, ensure_ascii=False) + "\n")
+
+    def content(tki, shift):
+        out = []
+        for k in range(n):
+            if meta:
+                out.append('{"index":{"_id":"m-c0f0d%d"}}\n' % k)
+            out.append(json.dumps({"id": f"c0f0d{k}", "t": TEXTS[tki][: 1 + (k + shift) % 7]}, ensure_ascii=False) + "\n")
+        return out
+
+    if revised:
+        with open(path, "w", encoding="utf-8") as f:
+            f.writelines(content((tk + 1) % len(TEXTS), 3))
+        rio.prepare_file_offset_table(path)
+        old = os.stat(path + ".offset").st_mtime
+    lines = content(tk, 0)
     with open(path, "w", encoding="utf-8") as f:
         f.writelines(lines)
+    if revised:
+        os.utime(path, (old + 10, old + 10))
     rio.prepare_file_offset_table(path)
     ref = {path: [l.encode("utf-8") for l in lines]}
     doc = track.Documents(track.Documents.SOURCE_FORMAT_BULK, document_file=path, number_of_documents=n, includes_action_and_meta_data=meta, target_index="idx0")
@@ -507,9 +521,9 @@ def large_track(nlines, tk, meta):
 
 
 def large_cases(tier):
-    specs = [(100003, 2, False), (120007, 3, False), (50001, 1, False), (100004, 2, True)]
+    specs = [(100003, 2, False), (120007, 3, False), (50001, 1, False), (100004, 2, True), (100003, 1, False, True)]
     if tier == "thorough":
-        specs += [(49999, 2, False), (50000, 3, False), (150001, 3, False), (200006, 2, True)]
+        specs += [(49999, 2, False), (50000, 3, False), (150001, 3, False), (200006, 2, True), (120007, 2, False, True), (100004, 3, True, True)]
     for spec in specs:
         for clients in (2, 3):
             for bulk in (1000, 4999):
